@@ -115,8 +115,9 @@ def main():
         if confirmed or "--keep-always" in a:
             sd = os.path.join(VERIF, "seeded", name)
             os.makedirs(sd, exist_ok=True)
-            shutil.copyfile(patch, os.path.join(sd, "patch.diff"))
-            shutil.copyfile(demo, os.path.join(sd, "demo_test.go"))
+            if os.path.abspath(patch) != os.path.abspath(os.path.join(sd, "patch.diff")):
+                shutil.copyfile(patch, os.path.join(sd, "patch.diff"))
+                shutil.copyfile(demo, os.path.join(sd, "demo_test.go"))
             meta.update(property=prop, base_commit=base, confirmed=confirmed,
                         what_i_ran=["git apply patch.diff in a scratch worktree of /repo; go build ./...; go test -vet=off -count=1 ./... (passes)",
                                     "demo copied to %s: `%s` fails with the change, passes without" % (meta.get("demo_dir", "."), " ".join(cmd)),
